@@ -365,6 +365,34 @@ package errbase
 //@   ensures result >= 1 && len(self.entries) == old(len(self.entries)) + result
 //@   loop 1: invariant numChildren >= 0 && len(self.entries) == old(len(self.entries)) + numChildren
 
+
+// ======================================================================================
+// C06: escaping discipline of the redactable output buffer. Every write into state.finalBuf while
+// redactableOutput is set carries the sink obligation "well-formed redactable fragment" (generated
+// by the verifier at the write, see redactableSink); the contracts below give the executor what
+// it needs to reach those writes.
+// ASSUMED (T7, meaning of the flag): an entry is flagged redactable only for buffers produced
+// through redact's printer (collectEntry: redactable ==> bufIsRedactable && redactableOutput is
+// proved; that formatRecursive passes bufIsRedactable only after printing through safePrinter is
+// read off the code, not proved)
+//@ axiom wfr_redactable_entry: forall e formatEntry :: {e.head} e.redactable ==> wfR(strOf(e.head)) && wfR(strOf(e.details))
+
+//@ method (*state).printEntry
+//@   props C06 C05
+//@   assigns heap state.finalBuf
+
+//@ method (*state).formatSingleLineOutput
+//@   props C06 C05
+//@   assigns heap state.finalBuf
+//@   loop 1: invariant 0 - 1 <= i && i < len(self.entries)
+
+//@ method (*state).formatEntries
+//@   props C06 C05 C09
+//@   requires len(self.entries) >= 1
+//@   assigns heap state.finalBuf
+//@   loop 1: invariant 0 - 1 <= i && i < len(self.entries) - 1
+//@   loop 3: invariant 0 - 1 <= i && i < len(self.entries)
+
 //@ global invariant specialcases_nonnil: forall i int :: 0 <= i && i < len(specialCases) ==> specialCases[i] != nil
 
 //@ func RegisterSpecialCasePrinter
